@@ -120,6 +120,7 @@ pub fn run_direct(args: &Args, rep: &mut Report) {
     let chunks = (nu * nu) as u64;
     run_cases(args, "C04", chunks + 1, rep, &mut |c, rep| {
         if !mine(args, c) {
+            rep.cases -= 1;
             return;
         }
         if c == chunks {
@@ -338,6 +339,7 @@ pub fn run_scalars(args: &Args, rep: &mut Report) {
     const CONTEXTS: [&[u8]; 9] = [b"", b"a", b"\r", b"\n", b"\x1b[A", b"\x1b[1;5~", b"\x1b", "é".as_bytes(), b"\xE2\x82"];
     run_cases(args, "C04", chunks, rep, &mut |c, rep| {
         if !mine(args, c) {
+            rep.cases -= 1;
             return;
         }
         let lo = c as u32 * CHUNK;
